@@ -39,8 +39,17 @@ func cmdJSON(o *Out, line string, f []string) {
 		switch {
 		case tok == "NOEOL": // the text does not end with a newline
 			noEOL = true
-		case tok == "BAD":
-			text.WriteString("{\"a\": 1, \"b\": \n")
+		case strings.HasPrefix(tok, "BAD"):
+			// a line that is not a JSON document: cut after a colon, inside a literal, inside a string, inside an array;
+			// not JSON at all; unbalanced; a JSON value that is not a document (a document followed by more text on
+			// the same line, `{"a":1}}`, is accepted by the parser, which is external: not generated)
+			kinds := []string{"{\"a\": 1, \"b\": ", "{\"a\":tru", "{\"a\":nul", "{\"a\":fals", "{\"a\":\"x", "{\"a\":[1,", "xyz", "{", "}", "{\"a\":1,}",
+				"[1,2]", "{\"a\":1 \"b\":2}", "{\"a\":{\"$numberLong\":\"12", "{\"a\":1e", "{\"a\":-"}
+			k := 0
+			if len(tok) > 3 {
+				k = int(atoi64(tok[3:])) % len(kinds)
+			}
+			text.WriteString(kinds[k] + "\n")
 			hasBad = true
 		case strings.HasPrefix(tok, "PADL") || strings.HasPrefix(tok, "PADS"):
 			// PADL<n>:<hex> / PADS<n>:<hex>: the document in a line of exactly n bytes; L/S = whether bufio.Scanner
@@ -225,7 +234,7 @@ func streamJSON(o *Out, rng *rand.Rand, thorough bool, _ []string) {
 			tok := hx(mkDoc(schema, int64(k)))
 			if k == bad {
 				if rng.Intn(2) == 0 {
-					tok = "BAD"
+					tok = fmt.Sprintf("BAD%d", rng.Intn(15))
 				} else {
 					tok = "LONG" + tok
 				}
@@ -244,6 +253,11 @@ func streamJSON(o *Out, rng *rand.Rand, thorough bool, _ []string) {
 	// the last line without a newline: well-formed, malformed, too long; a single unterminated line
 	run(o, fmt.Sprintf("json 3 0 | %s %s %s NOEOL", hx(mkDoc(0, 1)), hx(mkDoc(0, 2)), hx(mkDoc(0, 3))))
 	run(o, fmt.Sprintf("json 3 0 | %s %s BAD NOEOL", hx(mkDoc(0, 1)), hx(mkDoc(0, 2))))
+	// every kind of malformed line, in the middle and at the end
+	for k := 0; k < 15; k++ {
+		run(o, fmt.Sprintf("json 3 0 | %s %s BAD%d %s", hx(mkDoc(0, 1)), hx(mkDoc(0, 2)), k, hx(mkDoc(0, 3))))
+		run(o, fmt.Sprintf("json 3 0 | %s BAD%d NOEOL", hx(mkDoc(0, 1)), k))
+	}
 	run(o, fmt.Sprintf("json 3 0 | %s LONG%s NOEOL", hx(mkDoc(0, 1)), hx(mkDoc(0, 2))))
 	run(o, fmt.Sprintf("json 2 0 | %s NOEOL", hx(mkDoc(1, 1))))
 	// line lengths around the scanner's 64 KiB buffer, terminated and not, last and in the middle
